@@ -246,23 +246,24 @@ class FakeSnowflakeCursor:
 
         result_sql = None
 
-        # CREATE TABLE IF NOT EXISTS on a table that already exists changes nothing, including its recorded metadata
         create_is_noop = False
-        if (
-            cmd == "CREATE TABLE"
-            and transformed.args.get("exists")
-            and (table := transformed.find(exp.Table))
-            and (catalog := table.catalog or self._conn.database)
-            and (schema := table.db or self._conn.schema)
-        ):
-            create_is_noop = bool(
-                self._duck_conn.execute(
-                    "SELECT 1 FROM duckdb_tables() WHERE database_name = ? AND schema_name = ? AND table_name = ?",
-                    (catalog, schema, table.name),
-                ).fetchall()
-            )
 
         try:
+            # CREATE TABLE IF NOT EXISTS on a table that already exists changes nothing, including its recorded metadata
+            if (
+                cmd == "CREATE TABLE"
+                and transformed.args.get("exists")
+                and (table := transformed.find(exp.Table))
+                and (catalog := table.catalog or self._conn.database)
+                and (schema := table.db or self._conn.schema)
+            ):
+                create_is_noop = bool(
+                    self._duck_conn.execute(
+                        "SELECT 1 FROM duckdb_tables() WHERE database_name = ? AND schema_name = ? AND table_name = ?",
+                        (catalog, schema, table.name),
+                    ).fetchall()
+                )
+
             if transformed.find(exp.Select) and (seed := transformed.args.get("seed")):
                 # set the seed with its own statement, so the query itself is what gets described later
                 self._duck_conn.execute(f"SELECT setseed({seed})")
